@@ -1524,6 +1524,21 @@ def emit_ann_assign(node):""")]),
             replacement = self.replacement_node
             return replacement
         else:""")]),
+    # ---- DIRNAME-EMPTY pitfall (C20, C09)
+    dict(id="dirname-empty-makedirs", kind=B, props=["C20", "C09"], expect="DIRNAME-EMPTY", edits=[("emit.py", """from os import path
+""", """from os import makedirs, path
+"""), ("emit.py",
+         """    with open(filename, mode) as f:
+        f.write(src)""", """    makedirs(path.dirname(filename), exist_ok=True)
+    with open(filename, mode) as f:
+        f.write(src)""")]),
+    dict(id="dirname-empty-neutral-absolute-first", kind=N, props=["C20", "C09"], expect="silent", edits=[("emit.py", """from os import path
+""", """from os import makedirs, path
+"""), ("emit.py",
+         """    with open(filename, mode) as f:
+        f.write(src)""", """    makedirs(path.dirname(path.abspath(filename)), exist_ok=True)
+    with open(filename, mode) as f:
+        f.write(src)""")]),
     # ---- PARAM-KEPT (C07, C03)
     dict(id="paramkept-return-type-popped-in-merge", kind=B, props=["C07", "C03"], expect="PARAM-KEPT", edits=[("parser_utils.py",
          """    if "return_type" not in (target.get("returns") or iter(())):""",
